@@ -94,6 +94,49 @@ func TestConcurrent(t *testing.T) {
 		cw.Wait()
 		close(stop)
 		wg.Wait()
+		// an expire racing in-place edits of the same silence: once Expire has returned without
+		// error the silence is expired under its id for good (an edit that comes later creates a
+		// new id; one that came earlier is expired with it)
+		victim := mk("x", time.Hour)
+		if err := s.Set(context.Background(), victim); err != nil {
+			t.Fatal(err)
+		}
+		vid := victim.Id
+		var rw sync.WaitGroup
+		var expErr error
+		start := make(chan struct{})
+		rw.Add(1)
+		go func() {
+			defer rw.Done()
+			<-start
+			expErr = s.Expire(context.Background(), vid)
+		}()
+		for w := 0; w < 4; w++ {
+			rw.Add(1)
+			go func(w int) {
+				defer rw.Done()
+				<-start
+				for i := 0; i < 3; i++ {
+					e := mk("x", time.Hour+time.Duration(w*10+i)*time.Minute)
+					e.Id, e.Comment = vid, fmt.Sprintf("edit %d/%d", w, i)
+					s.Set(context.Background(), e)
+				}
+			}(w)
+		}
+		close(start)
+		rw.Wait()
+		if expErr == nil {
+			res.Steps++
+			res.Count("expire_raced_edits", 1)
+			sils, _, qerr := s.Query(context.Background(), silence.QIDs(vid))
+			if qerr == nil && len(sils) == 1 && !sils[0].EndsAt.AsTime().After(time.Now()) {
+				// expired: as demanded
+			} else if qerr == nil && len(sils) == 1 {
+				res.Add(hx.Mismatch{Case: round, What: "Expire returned without error while in-place edits of the same silence were running, yet the silence is still active under its id",
+					Class: "verdict", Want: "expired", Got: fmt.Sprintf("ends %s (now %s), comment %q", sils[0].EndsAt.AsTime().Format(time.RFC3339Nano), time.Now().Format(time.RFC3339Nano), sils[0].Comment),
+					Replay: hx.J(fmt.Sprintf("round %d expire vs edits", round))})
+			}
+		}
 		// the first silence ends: what remains must still mute
 		s.Expire(context.Background(), first.Id)
 		time.Sleep(2 * time.Millisecond)
